@@ -202,7 +202,12 @@ def make_data(spec, d):
         ds["data"] = (("time", gdim), arr)
     else:
         ds["data"] = ((gdim, "time"), arr.T.copy())
-    ds = ds.assign_coords({"time": t, gdim: g})
+    gcoord = g
+    if d.get("axis_dtype") == "int" and np.all(g == np.round(g)):
+        gcoord = g.astype(np.int64)  # the coordinate as an instrument file stores it: integers
+    elif d.get("axis_dtype") == "float32":
+        gcoord = g.astype(np.float32)
+    ds = ds.assign_coords({"time": t, gdim: gcoord})
     if d["weight"] is not None:
         w = 0.5 + 1.5 * core.det_noise((t.size, g.size), 7, "weight", d["label"], t.size, g.size) ** 2
         if d["weight"] == "dataset_gm" or (d["weight"] == "dataset" and d["layout"] == "gm"):
